@@ -944,6 +944,14 @@ class Generator:
             m = ex2.meta.get(sid)
             r = self.rng
             cands = [(path, kind, hint) for path, kind, al, hint in (m["subs"] if m else []) if kind != "tuple"]
+            # F2: in a third of the rounds the caller edits one of the ARGUMENT objects it passed (its own
+            # matrices / graph / circuit, or an earlier result it fed back) instead of the result
+            arg_refs = [A["ref"] for A in list(call.get("args", [])) + [a for _, a in call.get("kw", [])]
+                        if "ref" in A and A["ref"] in ex2.meta and ex2.meta[A["ref"]]["subs"]]
+            if arg_refs and (not cands or r.random() < 0.34):
+                sid = r.choice(arg_refs)
+                m = ex2.meta[sid]
+                cands = [(path, kind, hint) for path, kind, al, hint in m["subs"] if kind != "tuple"]
             if not cands:
                 # nothing to disturb in the result (e.g. an in-place op returning None): question the receiver,
                 # repeat the op, question the receiver again
